@@ -47,6 +47,132 @@ def jsStringDenotes : Str → Option Str
 def plainJsText (s : Str) : Bool :=
   s.all fun c => c != '\\' && c != '\n' && c != '\r'
 
+/-! ### denotation of a JavaScript number
+
+`jsNumParse` reads the text of a JavaScript numeric expression of the forms the library can write: an optional unary
+minus, then a DecimalLiteral (ECMAScript: `DecimalIntegerLiteral . DecimalDigits? ExponentPart?` | `. DecimalDigits
+ExponentPart?` | `DecimalIntegerLiteral ExponentPart?`, no leading zeros, no separators) or the global `Infinity`; or
+the global `NaN`.  A decimal literal denotes its exact mathematical value `m · 10^e`, which JavaScript then rounds to
+the nearest double (ties to even).  `jsNumberDenotes txt v`: `txt` is such an expression and evaluates to the Python
+number `v` — for an `int` the literal's exact value is `v` (that a JavaScript number cannot hold an integer beyond
+2^53 exactly is the target type's limit, not the text's), for a `float` the literal rounds to exactly that double
+(and the sign of a zero is kept), `Infinity` / `-Infinity` / `NaN` for the non-finite floats. -/
+
+namespace JsLit
+
+def isDig (c : Char) : Bool := decide ('0' ≤ c ∧ c ≤ '9')
+
+/-- value of a digit string -/
+def digits (ds : Str) : Nat := ds.foldl (fun a c => 10 * a + (c.toNat - 48)) 0
+
+/-- `ExponentPart?` followed by the end of the text: the exponent (0 when absent); `none`: anything else -/
+def exponentPart : Str → Option Int
+  | [] => some 0
+  | c :: r =>
+    if c = 'e' ∨ c = 'E' then
+      let (neg, r') : Bool × Str := match r with
+        | '+' :: q => (false, q)
+        | '-' :: q => (true, q)
+        | q => (false, q)
+      if r' ≠ [] ∧ r'.all isDig then some (if neg then -(digits r' : Int) else (digits r' : Int)) else none
+    else none
+
+/-- an unsigned DecimalLiteral: `(m, e)` with value `m · 10^e` -/
+def decimalLiteral (s : Str) : Option (Nat × Int) :=
+  let ip := s.takeWhile isDig
+  let r1 := s.dropWhile isDig
+  let ipOk : Bool := ip == ['0'] || (!ip.isEmpty && ip.head? != some '0')
+  match r1 with
+  | '.' :: r =>
+    let fp := r.takeWhile isDig
+    let r2 := r.dropWhile isDig
+    if (ipOk || (ip.isEmpty && !fp.isEmpty)) then
+      (exponentPart r2).map fun e => (digits (ip ++ fp), e - fp.length)
+    else none
+  | r2 => if ipOk then (exponentPart r2).map fun e => (digits ip, e) else none
+
+end JsLit
+
+/-- what a JavaScript numeric expression evaluates to, before rounding to a double -/
+inductive JsNum
+  | dec (neg : Bool) (m : Nat) (e : Int)     -- (-1)^neg · m · 10^e
+  | inf (neg : Bool)
+  | nan
+  deriving DecidableEq, Repr
+
+def jsNumParse (s : Str) : Option JsNum :=
+  if s = chars% "NaN" then some .nan
+  else
+    let (neg, r) : Bool × Str := match s with
+      | '-' :: r => (true, r)
+      | r => (false, r)
+    if r = chars% "Infinity" then some (.inf neg)
+    else (JsLit.decimalLiteral r).map fun me => .dec neg me.1 me.2
+
+/-- a Python number, exactly: an `int`, a finite `float` `(-1)^neg · mant · 2^exp` in canonical form, or a non-finite float -/
+inductive PyNum
+  | int (i : Int)
+  | float (neg : Bool) (mant : Nat) (exp : Int)
+  | inf (neg : Bool)
+  | nan
+  deriving DecidableEq, Repr
+
+def PyNum.finite : PyNum → Bool
+  | .int _ => true
+  | .float .. => true
+  | _ => false
+
+/-- canonical form of a double: 53-bit significand, normalised unless subnormal, exponent range of binary64 -/
+def PyNum.wf : PyNum → Bool
+  | .float _ mant exp =>
+    decide (mant < 2 ^ 53 ∧ -1074 ≤ exp ∧ exp ≤ 971 ∧ (2 ^ 52 ≤ mant ∨ exp = -1074))
+  | _ => true
+
+namespace JsLit
+
+/-- `m · 10^e` compared with `b · 2^k` -/
+def cmpScaled (m : Nat) (e : Int) (b : Nat) (k : Int) : Ordering :=
+  compare (m * 10 ^ e.toNat * 2 ^ (-k).toNat) (b * 2 ^ k.toNat * 10 ^ (-e).toNat)
+
+/-- the real number `m · 10^e` rounds (to nearest, ties to even) to the double `mant · 2^exp`: it lies between the
+    midpoints to the two neighbouring doubles (in units of a quarter of the spacing `2^exp`: the lower neighbour of a
+    power of two is only half as far), a midpoint itself only when `mant` is even -/
+def roundsTo (m : Nat) (e : Int) (mant : Nat) (exp : Int) : Bool :=
+  let even := mant % 2 == 0
+  let hi := cmpScaled m e (4 * mant + 2) (exp - 2)
+  let loB := if mant == 2 ^ 52 && exp > -1074 then 4 * mant - 1 else 4 * mant - 2
+  let lo := cmpScaled m e loB (exp - 2)
+  (hi == .lt || (hi == .eq && even)) && (mant == 0 || lo == .gt || (lo == .eq && even))
+
+end JsLit
+
+def JsNum.denotes : JsNum → PyNum → Bool
+  | .dec neg m e, .int i =>
+    -- exact; an exponent beyond a few thousand is not something to evaluate
+    decide (e.natAbs ≤ 5000) && !(neg && m == 0) &&
+      (if e ≥ 0 then (if neg then -((m * 10 ^ e.toNat : Nat) : Int) else ((m * 10 ^ e.toNat : Nat) : Int)) == i
+       else m % 10 ^ (-e).toNat == 0 && (if neg then -((m / 10 ^ (-e).toNat : Nat) : Int) else ((m / 10 ^ (-e).toNat : Nat) : Int)) == i)
+  | .dec neg m e, .float fneg mant exp =>
+    decide (e.natAbs ≤ 5000) && neg == fneg && (PyNum.float fneg mant exp).wf && JsLit.roundsTo m e mant exp
+  | .inf n, .inf n' => n == n'
+  | .nan, .nan => true
+  | _, _ => false
+
+/-- `txt` is a JavaScript numeric expression that evaluates to the Python number `v` -/
+def jsNumberDenotes (txt : Str) (v : PyNum) : Bool :=
+  match jsNumParse txt with
+  | none => false
+  | some n => n.denotes v
+
+/-- what Python's `str()` gives for a number, as far as C20 relies on it (a fact about the runtime, evaluated on every
+    generated number by the executable statement): a finite number is written as a decimal literal that denotes it;
+    the non-finite floats are written `inf`, `-inf`, `nan` -/
+def pyStrOf (t : Str) : PyNum → Bool
+  | .inf false => t == chars% "inf"
+  | .inf true => t == chars% "-inf"
+  | .nan => t == chars% "nan"
+  | v => jsNumberDenotes t v
+
 /-! ### JavaScript expressions -/
 
 mutual
@@ -169,7 +295,7 @@ mutual
   def JVal.mirrorVal : JVal → Except Err Js
     | .null => .ok (.raw (chars% "null"))
     | .bool b => .ok (.raw (if b then chars% "true" else chars% "false"))
-    | .num t => .ok (.raw t)
+    | .num t => .ok (.raw (numJs t))
     | .list _ vs =>
       match vs.mirrorVals with
       | .error e => .error e
